@@ -2627,7 +2627,7 @@ private:
       }
       if (_config.serverTls.verifyPeer)
       {
-        ::SSL_CTX_set_verify(_sslSrv, SSL_VERIFY_PEER, nullptr);
+        ::SSL_CTX_set_verify(_sslSrv, SSL_VERIFY_PEER | SSL_VERIFY_FAIL_IF_NO_PEER_CERT, nullptr);
         if (!_config.serverTls.caFile.empty() || !_config.serverTls.caPath.empty())
         {
           if (::SSL_CTX_load_verify_locations(_sslSrv,
